@@ -858,7 +858,9 @@ def history_form(ctx, i, rng):
     if cell == "interval" and itype != "cell" and rng.random() < 0.5:
         itype = "cell"
     cplx = rng.random() < 0.15
-    U = Universe(rng, cell, gdim, itype, cplx)
+    # a third of the forms live on non-affine cells (degree-2 coordinates): the integral scaling factor then has a
+    # positive polynomial degree, so passes that update degree estimates have something to write
+    U = Universe(rng, cell, gdim, itype, cplx, coord_degree=2 if rng.random() < 0.33 else 1)
     G = Gen(U, rng, deriv=1, cplx=cplx)
     arity = rng.choice([0, 1, 1, 2, 2])
     info = {}
